@@ -628,7 +628,7 @@ def family(prop, t, sd):
         specs = [s for s in specs if s['dir'] != 'solve']
     if prop == 'C05':
         # degenerate / cycling LPs: "the simplex-based solvers always reach one of the three verdicts"
-        specs += degenerate_family() + cycling_family() + tolerance_scale_family(t)
+        specs += degenerate_family() + cycling_family() + tolerance_scale_family(t) + empty_domain_family()
         # 4..7-variable knapsack-like MILPs (branch-and-bound trees with more than a handful of nodes)
         import c15
         specs += c15.knapsacks(33 if t == 'quick' else 330 + sd, 150 if t == 'quick' else 1500) + c15.gap_family()
@@ -729,6 +729,22 @@ def tolerance_scale_family(t):
                     out.append(gen.lm_spec([nn, nn], [([e, 1], c, 1), ([1, 0], '<=', big)], [1, 1] if d == 'max' else [-1, 1], d))
                     out.append(gen.lm_spec([nn, nn, nn], [([e, 1, 1], c, 2), ([1, 0, 0], '<=', big), ([0, 1, -1], '<=', 0.5)], [1, 2, 0], d))
                     out.append(gen.lm_spec([nn, nn], [([1, e], c, 1), ([0, 1], '<=', big), ([1, 1], '>=', 0.25)], [1, 1], d))
+    return out
+
+
+def empty_domain_family():
+    """a variable whose declared range is empty (lo > hi) next to variables along which the objective is bounded or
+    unbounded, with and without rows: the verdict is Infeasible whatever else the model looks like"""
+    D = gen.D
+    out = []
+    empties = [D('Real', 2, 1), D('NNReal', 3, 1), D('Real', 0.5, -0.5)]
+    others = [(D('NNReal', 0, 'inf'), D('Real', 0, 5)), (D('Real', '-inf', 'inf'), D('NNReal', 0, 4)), (D('Real', -2, 3), D('Real', 0, 5))]
+    for e in empties:
+        for (k1, k2) in others:
+            for d in ('max', 'min'):
+                for obj in ([1, 3, 1], [0, 1, 0], [1, -1, 0]):
+                    for rows in ([], [([0, 1, 1], '<=', 4)], [([1, 1, 0], '>=', 1), ([0, 0, 1], '<=', 2)]):
+                        out.append(gen.lm_spec([e, k1, k2], rows, obj, d))
     return out
 
 
